@@ -367,7 +367,9 @@ func enumerate(t *testing.T, part string, pl *plan) {
 		cnt++
 	}
 	vk.Extra("cases:"+part, int64(cnt))
-	vk.Extra("blocks:"+part, int64(len(pl.blocks)))
+	if s == 0 {
+		vk.Extra("blocks:"+part, int64(len(pl.blocks))) // per build configuration
+	}
 	vk.Enumerate(t, subName, pl.total, pl.gen, runCase(part))
 }
 
